@@ -67,6 +67,7 @@ type Profile struct {
 	CheckEvery int
 	TreeEvery  int
 	ForceFlush bool
+	FlushMargins []int
 	EnumFlush  bool // thorough: enumerate every subset of small flushes
 	BigInsertOnly bool // growth runs: mostly inserts into one table
 }
@@ -728,8 +729,15 @@ func (g *gen) pickKnobs() Knobs {
 	if len(pf.CacheCaps) > 0 {
 		k.CacheCap = pf.CacheCaps[g.r.Intn(len(pf.CacheCaps))]
 	}
-	if k.CacheCap > 0 && k.CacheCap < 1000 {
+	if k.CacheCap > 0 && k.CacheCap < 1000 && (pf.Prop != "C15" || g.r.Chance(0.5)) {
+		// C15 withholds ticks in half of its runs so that dirty pages pile up until the cache refuses
 		k.ForceFlush = true
+	}
+	if pf.Prop == "C15" && !k.ForceFlush {
+		k.CacheOnly = true
+	}
+	if len(pf.FlushMargins) > 0 {
+		k.FlushMargin = pf.FlushMargins[g.r.Intn(len(pf.FlushMargins))]
 	}
 	return k
 }
